@@ -570,6 +570,165 @@ pub fn mislabel_cross_trim<S: RefOps + UniSch>(rec: &mut Rec) {
     }
 }
 
+/// Degenerate points in a batch.  At a point z with z^(|d-d'|) = 1, z = 0, or p(z) = 0 the shift identity cannot
+/// tell the bound d' a Marlin commitment was made under from the bound d it is shown under: a crafted witness (built
+/// here from a replay of the verifier's challenges and a naive commitment to the quotient) is accepted at that point
+/// alone, by the scheme's relation and by the library alike.  The scheme relies on the OTHER points of a batch: a
+/// batch over such a point and a random point must be rejected whatever the prover sends for the random point (a
+/// plain opening that ignores the bound, the opening under the bound of the committer, the opening under the bound
+/// shown), in both label orders.  Controls: the same constructive prover under the honest label is accepted.
+pub fn mar_degenerate_batch(rec: &mut Rec) {
+    use crate::refm::{challenge, naive_msm};
+    use ark_ec::CurveGroup;
+    use ark_poly_commit::{kzg10, Evaluations, QuerySet};
+    type S = SMar;
+    type F = Fr381;
+    let cfg = KeyCfg::uni(8, 6, 1, Some(vec![3, 5]));
+    let keys = match build_keys::<S>(&cfg, rec.seed) {
+        Ok(k) => k,
+        Err(_) => return,
+    };
+    let max = keys.pp.powers_of_g.len() - 1;
+    let r = rho_stream::<F>(rec.seed, 51, 8);
+    // quotient witness of  c1*p + c2*(X^(max-made)*p - v*X^(max-shown))  at z (None when the shifted part does not vanish)
+    let witness = |p: &[F], z: F, v: F, c1: F, c2: Option<F>, made: usize, shown: usize| -> Option<kzg10::Proof<E381>> {
+        let top = 2 * max + 1;
+        let mut comb = vec![F::zero(); top + 1];
+        for (i, a) in p.iter().enumerate() {
+            comb[i] += c1 * *a;
+            if let Some(c2) = c2 {
+                comb[max - made + i] += c2 * *a;
+            }
+        }
+        if let Some(c2) = c2 {
+            comb[max - shown] -= c2 * v;
+        }
+        comb[0] -= c1 * v;
+        // synthetic division by (X - z)
+        let mut q = vec![F::zero(); top];
+        let mut carry = F::zero();
+        for i in (0..=top).rev() {
+            let cur = comb[i] + carry * z;
+            if i > 0 {
+                q[i - 1] = cur;
+            } else if !cur.is_zero() {
+                return None;
+            }
+            carry = cur;
+        }
+        if q[max..].iter().any(|x| !x.is_zero()) {
+            // the parameters have no power for this quotient
+            return None;
+        }
+        let w = naive_msm(&keys.pp.powers_of_g[..max], &q[..max]).into_affine();
+        Some(kzg10::Proof { w, random_v: None })
+    };
+    let root = r[7];
+    for (kind, coeffs) in [
+        ("deg4", vec![r[0], r[1], r[2], r[3], r[4]]),
+        ("deg2", vec![r[0], r[1], r[2]]),
+        // (X - root) * (r0 + r1 X + r2 X^2 + r3 X^3): degree 4, vanishes at `root`
+        ("deg4-with-root", vec![-root * r[0], r[0] - root * r[1], r[1] - root * r[2], r[2] - root * r[3], r[3]]),
+    ] {
+        for (made, shown) in [(5usize, 3usize), (3, 5)] {
+            if coeffs.len() - 1 > made {
+                continue;
+            }
+            for (zn, za) in [("1", F::one()), ("0", F::zero()), ("-1", -F::one()), ("root", root)] {
+                if zn == "root" && kind != "deg4-with-root" {
+                    continue;
+                }
+                for first in ["degenerate-first", "degenerate-second"] {
+                    let id = format!("MAR/degenerate-batch/{}/made={}/shown={}/z={}/{}", kind, made, shown, zn, first);
+                    if !rec.take(&id) {
+                        continue;
+                    }
+                    rec.dim("scheme", "MAR");
+                    let p = uni_poly::<S>(&coeffs);
+                    let c = match commit_set::<S>(&keys, vec![lp::<S>("p", p.clone(), Some(made), None)], rec.seed, 0) {
+                        Ok(c) => c,
+                        Err(_) => continue,
+                    };
+                    rec.op(1);
+                    let zb = rho::<F>(rec.seed, 9);
+                    let (va, vb) = (p.evaluate(&za), p.evaluate(&zb));
+                    let mislabelled = LabeledCommitment::new("p".to_string(), c.comms[0].commitment().clone(), Some(shown));
+                    // 1. the degenerate point alone: relation and library accept the crafted witness
+                    let mut sp = sponge_pre::<F>(0);
+                    let (c1, c2): (F, F) = (challenge(&mut sp), challenge(&mut sp));
+                    let wa = match witness(&coeffs, za, va, c1, Some(c2), made, shown) {
+                        Some(w) => w,
+                        None => panic!("MACHINERY: the point {} is not degenerate for bounds {} and {}", zn, made, shown),
+                    };
+                    run_pair::<S>(rec, &id, "degenerate-point-alone", &keys, &[&mislabelled], &za, &[va], &wa, &|| true, &format!("commitment made under bound {} shown under bound {} at the degenerate point {} with a crafted witness", made, shown, zn));
+                    // 2. batches over the degenerate point and a random one
+                    let (la, lb) = if first == "degenerate-first" { ("a", "b") } else { ("b", "a") };
+                    let mut qs = QuerySet::new();
+                    qs.insert(("p".to_string(), (la.to_string(), za)));
+                    qs.insert(("p".to_string(), (lb.to_string(), zb)));
+                    let mut ev = Evaluations::new();
+                    ev.insert(("p".to_string(), za), va);
+                    ev.insert(("p".to_string(), zb), vb);
+                    for label_kind in ["mislabelled", "honest-label(control)"] {
+                        let shown_now = if label_kind == "mislabelled" { shown } else { made };
+                        let lcm = LabeledCommitment::new("p".to_string(), c.comms[0].commitment().clone(), Some(shown_now));
+                        for bproof in ["plain", "under-made-bound", "under-shown-bound"] {
+                            if label_kind != "mislabelled" && bproof != "under-made-bound" {
+                                continue;
+                            }
+                            let mut sp = sponge_pre::<F>(0);
+                            let mut proofs = Vec::new();
+                            let mut ok = true;
+                            for (z, v, degenerate) in if first == "degenerate-first" { [(za, va, true), (zb, vb, false)] } else { [(zb, vb, false), (za, va, true)] } {
+                                let (c1, c2): (F, F) = (challenge(&mut sp), challenge(&mut sp));
+                                let w = if degenerate || label_kind != "mislabelled" {
+                                    witness(&coeffs, z, v, c1, Some(c2), made, shown_now)
+                                } else {
+                                    match bproof {
+                                        "plain" => witness(&coeffs, z, v, c1, None, made, shown),
+                                        "under-made-bound" => witness(&coeffs, z, v, c1, Some(c2), made, made),
+                                        _ => witness(&coeffs, z, v, c1, Some(c2), shown, shown),
+                                    }
+                                };
+                                match w {
+                                    Some(w) => proofs.push(w),
+                                    None => ok = false,
+                                }
+                            }
+                            if !ok {
+                                if bproof == "under-shown-bound" {
+                                    rec.class("opening-not-constructible");
+                                    continue;
+                                }
+                                panic!("MACHINERY: constructive Marlin prover failed");
+                            }
+                            let got = check_batch::<S>(&keys, &[&lcm], &qs, &ev, &proofs, 0, rec.seed, 0);
+                            rec.count_points(1);
+                            rec.op(1);
+                            rec.obs(&format!("MAR|degenerate-batch|{}|{}|{}", label_kind, bproof, got.class()));
+                            if label_kind == "mislabelled" {
+                                rec.class(&format!("presented-{}", got.class()));
+                                if got.accepted() {
+                                    rec.violation(
+                                        "C04/MAR/batch_check/mislabel-with-degenerate-point/accepted",
+                                        &id,
+                                        format!("commitment made under bound {} shown under bound {} is accepted in a batch over the degenerate point {} and a random point (opening at the random point: {})", made, shown, zn, bproof),
+                                    );
+                                }
+                            } else {
+                                rec.class("control-constructive-prover");
+                                if !got.accepted() {
+                                    rec.violation("C04/MAR/batch_check/constructive-honest-proof-refused", &id, format!("honest batch built by the constructive prover is refused: {}", got.short()));
+                                }
+                            }
+                        }
+                    }
+                }
+            }
+        }
+    }
+}
+
 pub fn run(rec: &mut Rec) {
     let dmax = if rec.thorough() { 6 } else { 4 };
     admission::<SMar>(rec, dmax);
@@ -582,6 +741,7 @@ pub fn run(rec: &mut Rec) {
     mislabel_group::<SSon>(rec);
     mislabel_group::<SIpa>(rec);
     mislabel_cross_trim::<SMar>(rec);
+    mar_degenerate_batch(rec);
     mislabel_cross_trim::<SSon>(rec);
     surgery::<SMar>(rec);
     surgery::<SSon>(rec);
